@@ -143,6 +143,7 @@ struct Redeliv {
 	uint16_t idxor = 0;          // DNS id changed by xor (0 = same id)
 	uint64_t recase = 0;         // non-zero: letters of the question name re-cased by this key
 	bool altsrc = false;         // arrives from another relay address
+	bool altport = false;        // arrives from the same address but another source port (a relay that randomises its ports per attempt)
 	uint16_t retype = 0;         // non-zero: the copy asks the same name with this query type (another question, not a repeat)
 };
 
@@ -166,7 +167,7 @@ struct FaultCfg {
 	uint64_t t0 = 0, t1 = 0;
 	double p_drop = 0, p_dup = 0, p_delay = 0, p_trunc = 0, p_flip = 0;
 	double p_redeliv = 0;            // queries to port 53 only
-	double p_rd_newid = 0, p_rd_recase = 0, p_rd_altsrc = 0, p_rd_retype = 0;
+	double p_rd_newid = 0, p_rd_recase = 0, p_rd_altsrc = 0, p_rd_retype = 0, p_rd_altport = 0;
 	uint64_t rd_max_delay = 0;
 	uint64_t max_delay = 0;
 	bool enabled() const { return t1 > t0; }
